@@ -175,7 +175,7 @@ func ParallelFor(n, workers int, f func(i int)) {
 }
 
 // watchdog: a work item that does not finish within VERIF_ITEM_TIMEOUT seconds (default 150) is a stuck driver -
-// all goroutine stacks go to stderr and the process exits with status 3 (the check reports "inconclusive", never
+// all goroutine stacks go to stderr and the process exits with status 4 (the check reports "inconclusive", never
 // a violation).
 func watchdog(i int) (stop func()) {
 	secs := 150
@@ -190,7 +190,7 @@ func watchdog(i int) (stop func()) {
 			syscall.Kill(os.Getpid(), syscall.SIGQUIT) // full runtime dump (with GOTRACEBACK=system)
 			time.Sleep(5 * time.Second)
 		}
-		os.Exit(3)
+		os.Exit(4)
 	})
 	return func() { t.Stop() }
 }
